@@ -251,13 +251,14 @@ func NewDateRangeWithNow() DateRange {
 	return NewDateRange(start, end)
 }
 
-func (date Date) safeParse(s string) time.Time {
+// safeParse returns the zero time and false if s is not a calendar date.
+func (date Date) safeParse(s string) (time.Time, bool) {
 	d, err := time.Parse("_2 1 2006", s)
 	if err != nil {
-		return time.Time{}
+		return time.Time{}, false
 	}
 
-	return d
+	return d, true
 }
 
 // Time returns the minimum or maximum (depending on IsEndOfRange)
@@ -283,11 +284,12 @@ func (date Date) Time() time.Time {
 		// represent the start of the year 0.
 	}
 
-	result := date.safeParse(d)
+	result, ok := date.safeParse(d)
 
 	// If the safeParse could not parse the date it will return a zero date.
-	// Make sure we don't try to adjust the zero date.
-	if date.IsEndOfRange && !result.IsZero() {
+	// Make sure we don't try to adjust that. This must not be confused with
+	// 1 Jan 0001, which is a real date that happens to be the zero time.
+	if date.IsEndOfRange && ok {
 		switch {
 		case date.Day != 0:
 			result = result.AddDate(0, 0, 1)
